@@ -152,6 +152,16 @@ def check(ctx):
                 items.append((n, c, programs.decorated_trace(g, i, (k * 5) % (1 << n))))
         ctx.count("states", len(items))
         run_items(ctx, "n=%d: decorated traces of rotated table graph states" % n, items)
+    # every table entry of every configuration is reached through compress at least once
+    items = []
+    for n, conn in M.CONFIGS:
+        g = B.sg(n)
+        for k, gid in enumerate(conform.table_graphs(n, conn)):
+            gens = M.run(M.local_layer_gates([(k + 2 * q + 1) % 6 for q in range(n)]), n, B.graph_states_gens(n, gid))
+            i = g.index_of(M.canon_unsigned(gens, n))
+            items.append((n, conn, programs.decorated_trace(g, i, (k * 11 + 3) % (1 << n))))
+    ctx.count("states", len(items))
+    run_items(ctx, "all 20 configurations x every class: decorated trace of the (locally rotated) table graph state", items)
     if not quick:
         g5 = B.sg(5)
         items = [(5, M.configs_for(5)[i % 6], programs.decorated_trace(g5, i, i % 32)) for i in range(0, g5.N, 4)]
